@@ -365,12 +365,15 @@ def run(ctx):
         if rnd.random() < 0.15:
             # also feed a token-level mutant of a *program* through evaluation when it still parses
             s2 = mutate(rnd, src)
-            try:
-                tree = parser.parse(s2)
-                n2 = larkconv.conv(tree)
-                check_eval(acc, s2, benv, "mutated-program", node=n2)
-            except Exception:
-                check_compile(acc, s2, "mutated-program")
+            # compile() first, under the wall-clock guard: an unterminated literal with many escapes
+            # makes the lexer backtrack exponentially (known finding) and must not hang the worker
+            if check_compile(acc, s2, "mutated-program"):
+                try:
+                    n2 = larkconv.conv(parser.parse(s2))
+                except Exception:
+                    n2 = None
+                if n2 is not None:
+                    check_eval(acc, s2, benv, "mutated-program", node=n2)
         check_eval(acc, src, benv, "ill-typed", node=node)
         if j % 1499 == 0:
             acc.sample({"program": src, "bindings": MV.enc_env(benv)})
